@@ -153,6 +153,16 @@ def encode(ppq, tracks, fmt=None):
                 body += b"\xff\x58\x04" + bytes([ev["numerator"], dd, ev.get("clocks", 24), ev.get("n32", 8)])
             elif t == "key_signature":
                 body += b"\xff\x59\x02" + bytes([ev["fifths"] & 0xFF, ev.get("minor", 0)])
+            elif t == "pitchwheel":
+                v = ev.get("pitch", 0) + 8192
+                body += bytes([0xE0 | ev["channel"], v & 0x7F, (v >> 7) & 0x7F])
+            elif t == "aftertouch":
+                body += bytes([0xD0 | ev["channel"], ev.get("value", 64)])
+            elif t == "polytouch":
+                body += bytes([0xA0 | ev["channel"], ev["note"], ev.get("value", 64)])
+            elif t == "sysex":
+                data = bytes(ev.get("data", (0x7E, 0x7F, 0x09, 0x01)))
+                body += b"\xf0" + _vlq(len(data) + 1) + data + b"\xf7"
             elif t == "track_name":
                 nm = ev["name"].encode("latin-1")
                 body += b"\xff\x03" + _vlq(len(nm)) + nm
